@@ -93,7 +93,7 @@ func hidingPositions(t *tm.Term) []hidePos {
 				switch {
 				case c.Op.SideIsReference:
 					out = append(out, hidePos{i, si, "markref"})
-				case c.Op.Name == "Newf_e" || c.Op.Name == "Wrapf_e":
+				case c.Op.Name == "Newf_e" || c.Op.Name == "Wrapf_e" || c.Op.Name == "Newf_vw":
 					out = append(out, hidePos{i, si, "fmtarg"})
 				default:
 					out = append(out, hidePos{i, si, "secondary"})
@@ -135,9 +135,9 @@ func hiddenTerm(t *tm.Term, hp hidePos) *tm.Term {
 }
 
 func runC07(c *core.Ctx, r *core.Result) {
-	p := plan{fullDepth: 3, coreDepth: 4}
+	p := plan{fullDepth: 3, coreDepth: 4, alphabet: tm.REGE}
 	if c.Thorough() {
-		p = plan{fullDepth: 4, coreDepth: 5}
+		p = plan{fullDepth: 4, coreDepth: 5, alphabet: tm.REGE}
 	}
 	r.Bounds = p.String() + "; every hidden position of every term (barrier cause, secondary error, error-valued format argument, mark reference); local and after hop_K and hop_K^2"
 	r.Rule = "state = (term, hidden position, stage); non-trivial = the hidden sub-tree carries at least one annotation, sentinel or As-able type that a leaking accessor would pick up (its own structural vector differs from that of a plain leaf)"
